@@ -17,7 +17,7 @@ S12 = 'S12-rss-not-monotone-per-lam'
 
 
 def one_penalty(specs):
-    """every non-intercept term (and tensor marginal) gets exactly one penalty so that lam_i <-> one matrix"""
+    """every tensor marginal gets exactly one penalty, every other non-intercept term one or two, so that every lam value <-> one matrix"""
     out = []
     for s in specs:
         s = copy.deepcopy(s)
@@ -25,48 +25,83 @@ def one_penalty(specs):
             for m in s['margins']:
                 m['lam'] = m['lam'][:1]; m['penalties'] = m['penalties'][:1]
         elif s['kind'] != 'intercept':
-            s['lam'] = s['lam'][:1]; s['penalties'] = s['penalties'][:1]
+            s['lam'] = s['lam'][:2]; s['penalties'] = s['penalties'][:2]
         out.append(s)
     return out
 
 
 def lam_slots(specs):
-    """addresses of the individual lam values: (term index, marginal index or None)"""
+    """addresses of the individual lam values: (term index, marginal index or None, penalty index)"""
     slots = []
     for i, s in enumerate(specs):
         if s['kind'] == 'te':
-            slots += [(i, j) for j in range(len(s['margins']))]
+            slots += [(i, j, 0) for j in range(len(s['margins']))]
         elif s['kind'] != 'intercept':
-            slots.append((i, None))
+            slots += [(i, None, p) for p in range(len(s['lam']))]
     return slots
 
 
 def with_lams(specs, values):
     out = copy.deepcopy(specs)
-    for (i, j), v in zip(lam_slots(out), values):
+    for (i, j, p), v in zip(lam_slots(out), values):
         if j is None:
-            out[i]['lam'] = [float(v)]
+            out[i]['lam'][p] = float(v)
         else:
             out[i]['margins'][j]['lam'] = [float(v)]
     return out
 
 
+def nested_lams(specs, values):
+    """the lam vector in the shape the model-level attribute `gam.lam` has: one list per non-intercept term, one list per tensor marginal"""
+    out = []
+    it = iter(values)
+    for s in specs:
+        if s['kind'] == 'te':
+            out.append([[float(next(it))] for _ in s['margins']])
+        elif s['kind'] != 'intercept':
+            out.append([float(next(it)) for _ in s['lam']])
+    return out
+
+
 def unit_penalties(specs, X):
-    """P_k for every lam slot, embedded in the full coefficient space (built by the implementation with lam = 1 in that slot, 0 elsewhere)"""
+    """P_k for every lam slot, embedded in the full coefficient space, built by the implementation.  The penalty is linear in the
+    lam vector, so P_k = (P(v + v_k e_k) - P(v)) / v_k; v_k = 3^k keeps all lam vectors free of repeated values (a TermList drops a
+    term that is equal -- lam included -- to an earlier one, which a 0/1 lam vector would trigger for otherwise identical terms)"""
     slots = lam_slots(specs)
-    Ps = []
-    for k in range(len(slots)):
-        vals = [0.0] * len(slots)
-        vals[k] = 1.0
+    v = [3.0 ** k for k in range(len(slots))]
+
+    def pen(vals):
         tl = gen_terms.build_termlist(with_lams(specs, vals))
         tl.compile(X.copy())
-        Ps.append(tl.build_penalties().toarray())
+        return tl.build_penalties().toarray()
+    P0 = pen(v)
+    Ps = []
+    for k in range(len(slots)):
+        vals = list(v)
+        vals[k] = 2 * v[k]
+        Ps.append((pen(vals) - P0) / v[k])
     return Ps
 
 
-def fit(scn, specs):
-    s2 = dict(scn, specs=specs)
-    gam, its, out = gen_models.fit_captured(s2, tol=1e-12, max_iter=50)
+def fit(scn, specs, route='constructor', vals=None, base_specs=None):
+    """route 'constructor': the lam values are written into the term constructors; 'attribute': the model is built with other lam values
+    and the lam vector is assigned through the model-level attribute (the plural setter of the term list), as gridsearch does"""
+    if route == 'constructor':
+        s2 = dict(scn, specs=specs)
+        gam, its, out = gen_models.fit_captured(s2, tol=1e-12, max_iter=50)
+        return gam, its
+    s2 = dict(scn, specs=base_specs)
+    orig = gen_models.build_gam
+
+    def build(scn_, callbacks=None, **over):
+        g = orig(scn_, callbacks=callbacks, **over)
+        g.lam = nested_lams(base_specs, vals)
+        return g
+    gen_models.build_gam = build
+    try:
+        gam, its, out = gen_models.fit_captured(s2, tol=1e-12, max_iter=50)
+    finally:
+        gen_models.build_gam = orig
     return gam, its
 
 
@@ -111,8 +146,7 @@ def run(res):
         # penalties that are identically zero make lam meaningless: replace 'none'/None by 'auto'
         for s in specs:
             for t in (s['margins'] if s['kind'] == 'te' else [s]):
-                if t['penalties'][0] in (None, 'none'):
-                    t['penalties'] = ['auto']
+                t['penalties'] = ['auto' if q in (None, 'none') else q for q in t['penalties']]
         scn['specs'] = specs
         X, y = scn['X'], scn['y']
         n = len(y)
@@ -133,8 +167,10 @@ def run(res):
             traj = []
             for lam in LAMS:
                 vals = [b * lam for b in base] if vary == 'joint' else [lam if k == vary else base[k] for k in range(len(slots))]
+                route = 'attribute' if rng.random() < 0.5 else 'constructor'
+                res.count('lam set through: %s' % route)
                 try:
-                    gam, its = fit(scn, with_lams(specs, vals))
+                    gam, its = fit(scn, with_lams(specs, vals), route=route, vals=vals, base_specs=with_lams(specs, [3.0 ** k for k in range(len(slots))]))
                 except ValueError as e:
                     res.count('fit raised %s' % type(e).__name__)
                     traj = None
@@ -145,6 +181,15 @@ def run(res):
                     break
                 B = gam._modelmat(X).toarray()
                 beta = gam.coef_
+                # every lam value multiplies its own penalty matrix, whichever way it was set
+                Pimpl = gam.terms.build_penalties().toarray()
+                Pexp = sum(v * Pk for v, Pk in zip(vals, Ps))
+                if Pimpl.shape != Pexp.shape or not np.allclose(Pimpl, Pexp, rtol=1e-9, atol=1e-12 * max(1.0, np.abs(Pexp).max())):
+                    res.violations.append(dict(what='the penalty of the fitted model is not sum_k lam_k P_k: a lam value multiplies the wrong penalty matrix',
+                                               finding=None, input=dict(d0, lam_values=vals, lam_set_through=route, nested=nested_lams(specs, vals)),
+                                               observed=dict(model_lam=repr(gam.lam)), expected='lam vector %r in slot order' % (vals,)))
+                    traj = None
+                    break
                 fitted = B @ beta
                 wr = float(np.sum(w * (y - fitted) ** 2))
                 gs = [float(beta @ P @ beta) for P in Ps]
